@@ -116,6 +116,21 @@ Example C03_ex_isolated_unreadable :
   walk [NFile (L "a.rs") NotUtf8; NFile (L "b.rs") (Parsed [RFn (ex_fn "b" [[L "command"]])])]
   = [] ++ ([L "a.rs"], NotUtf8) :: [([L "b.rs"], Parsed [RFn (ex_fn "b" [[L "command"]])])].
 Proof. split; reflexivity. Qed.
+(* the wrapper text after the repairs of other properties that C03 reads through: a raw
+   identifier is invoked by its Rust name, the array branch of add_types_prefix qualifies
+   the element type only, types split at top-level commas *)
+Definition Q (n : string) (args : list qty) : qty := QPath [] (L n) (match args with [] => false | _ => true end) args.
+Definition fn (name : string) (ret : qty) : fn_def :=
+  {| fn_name := L name; fn_attrs := [[L "command"]]; fn_async := false; fn_params := []; fn_ret := Some ret |}.
+Example C03_ex_patched_rendering :
+  map wobs (emit (analyze (L "src") [NFile (L "m.rs") (Parsed [
+      RFn (fn "r#type" (Q "Vec" [Q "Option" [Q "String" []]]));
+      RFn (fn "b" (Q "Vec" [Q "Vec" [Q "User" []]]));
+      RFn (fn "c" (Q "Result" [Q "HashMap" [Q "String" []; Q "User" []]; Q "String" []]));
+      RFn (fn "d" (QTuple [Q "HashMap" [Q "String" []; Q "i32" []]; Q "bool" []]))])]))
+  = [(L "type", L "Promise<string | null[]>"); (L "b", L "Promise<types.User[][]>");
+     (L "c", L "Promise<Record<string, User>>"); (L "d", L "Promise<[Record<string, number>, boolean]>")].
+Proof. vm_compute. reflexivity. Qed.
 (* the template text of Model/Pipeline.v for these commands, lexed and parsed by the
    specification parser, reads back as the wrapper records of the abstract model *)
 Example C03_ex_tokens_read_back :
